@@ -14,9 +14,13 @@ fn pair(a: String, b: String) -> String {
 
 /// every C03 function on one string, all indices / index pairs (incl. i > j)
 fn run_string(s: &str, out: &mut Out) {
+    run_string_idx(s, indices(s.len()), out)
+}
+
+/// every C03 function on one string, the given indices / all pairs of them
+fn run_string_idx(s: &str, idx: Vec<usize>, out: &mut Out) {
     let h = hex(s.as_bytes());
     let len = s.len();
-    let idx = indices(len);
     for &i in &idx {
         out.emit(&format!("str.is_char_boundary {} {}", h, i), b(kstr::is_char_boundary(s, i)), b(s.is_char_boundary(i)), true);
         out.emit(&format!("str.get_from {} {}", h, i), &opt_view_str(s, kstr::get_from(s, i)), &opt_view_str(s, s.get(i..)), true);
@@ -99,5 +103,40 @@ pub fn run(tier: &str, seed: u64, out: &mut Out) {
             s.push(c);
         }
         run_string(&s, out);
+    }
+    run_large(thorough, seed, out);
+}
+
+/// seeded stream of LONG strings (10..=60 chars of all four encoded lengths, the rare lead /
+/// continuation bytes over-represented) with a few random indices each: on / inside characters,
+/// late in the string, at and beyond the length, huge
+fn run_large(thorough: bool, seed: u64, out: &mut Out) {
+    let mut rng = Rng(seed ^ 0xC03_1A26E);
+    let n = if thorough { 280 } else { 28 };
+    for _ in 0..n {
+        let s = rand_string(&mut rng, 10, 60);
+        let len = s.len();
+        let bounds: Vec<usize> = s.char_indices().map(|(i, _)| i).collect();
+        let mut idx: Vec<usize> = Vec::new();
+        // two boundaries, two positions inside (or just behind) a character, one anywhere, one late
+        for k in 0..6 {
+            let bnd = bounds[rng.below(bounds.len() as u64) as usize];
+            idx.push(match k {
+                0 | 1 => bnd,
+                2 | 3 => bnd + 1 + rng.below(3) as usize,
+                4 => rng.below(len as u64 + 1) as usize,
+                _ => len - 1 - rng.below(4.min(len as u64)) as usize,
+            });
+        }
+        idx.push(len);
+        idx.push(len + 1 + rng.below(3) as usize);
+        idx.push(match rng.below(5) {
+            0 => usize::MAX,
+            1 => isize::MAX as usize,
+            2 => isize::MAX as usize + 1,
+            3 => (rng.next() as usize) | (1 << 62),
+            _ => len + rng.below(1 << 20) as usize,
+        });
+        run_string_idx(&s, idx, out);
     }
 }
